@@ -118,7 +118,9 @@ def resolve(name, params, d, rng):
         # whatever n_basis says in addition is documented as derived from it
         out['n_basis'] = [None, nb + 2, max(1, nb - 2)][int(rng.randint(3))]
     elif val == 'inf':
-      out[key] = np.inf
+      # an infinity that is not the object np.inf (identity tests on
+      # np.inf do not survive arithmetic, parsing or pickling)
+      out[key] = float('inf') if rng.randint(2) else np.float64('inf')
   return out
 
 
